@@ -283,6 +283,7 @@ PROPS["C18"] = {
     "min_evals": {"quick": 250000, "thorough": 300000},
     "legs": [
         Leg("exhaustive", "c18", "^TestExhaustive$", engine="enumerate", rapid=False, shards=(8, 8), tests=["exhaustive"]),
+        Leg("wrap", "c18", "^TestWrap$", engine="enumerate", rapid=False, shards=(1, 1), tests=["wrap"]),
         Leg("long", "c18", "^TestLong$", checks=(1500, 20000), shards=(1, 16), tests=["long"]),
         Leg("concurrent", "c18", "^TestConcurrent$", engine="sched", checks=(400, 12000), shards=(2, 16), tests=["concurrent"]),
         Leg("concurrent-race", "c18", "^TestConcurrent$", engine="sched", race=True, checks=(250, 6000), shards=(2, 16), tests=["concurrent"]),
